@@ -7,7 +7,8 @@
      [k |-> "deliver", ev, by, ep, st, fac, spa, descr, sensor]
           ev: model event name; by: "PUMP"|"LOC"|"PING"|"BG"|"USER"|"MAIN"; ep: the spa epoch the
           delivering task belongs to (0 for PUMP / LOC / USER / MAIN)
-     [k |-> "reset", phase |-> "start" | "return"]        harness calls async_reset
+     [k |-> "reset", phase |-> "start" | "return", setinfo]   harness calls async_reset (setinfo: through
+                                                          async_set_spa_info with an identifier and a name)
      [k |-> "net", mode |-> "ok" | "bad"]                network phase change
      [k |-> "exit"]                                       the manager context is left
      [k |-> "susp"]                                       the client handler of the last delivery suspends
@@ -50,7 +51,7 @@ SilentTask(t) ==
 Silent == (\E t \in Tasks : SilentTask(t) \/ (StepEnd(t) /\ Stay)) \/ (StepLoc /\ Stay)
 
 TSusp == More /\ E.k = "susp" /\ (\E t \in Tasks : Suspend(t)) /\ Step
-TResetStart == More /\ E.k = "reset" /\ E.phase = "start" /\ UserReset /\ Step
+TResetStart == More /\ E.k = "reset" /\ E.phase = "start" /\ (IF E.setinfo THEN UserSetInfo ELSE UserReset) /\ Step
 TResetReturn == /\ More /\ E.k = "reset" /\ E.phase = "return"
                 /\ CanRun(USER) /\ StepUserReturn(USER) /\ fresh' = FALSE /\ Step
 TNet == More /\ E.k = "net" /\ net # E.mode /\ NetChange /\ Step
